@@ -7,6 +7,7 @@ def dispatch (comp arg : String) : String :=
   | "c30" => runC30 arg
   | "c31" => runC31 arg
   | "c29" => runC29 arg
+  | "c38" => runC38 arg
   | _ => "bad-component"
 
 def main : IO Unit := mainWith dispatch
